@@ -37,12 +37,14 @@ theorem gridVec_eq_vec3 (rb ra j a : ℕ) :
           ((Scalar.ofNat j + Scalar.ofFrac 1 2) / Scalar.ofNat rb * Scalar.pi : ℝ)).z] := by
   simp [C11.gridVec, gridPoint, angles_to_xyz, betas, alphas, Scalar.two]
 
-/-- the hypothesis `hT` of `signal_on_grid_values` holds for the C11 model of `ToS2Grid`, band limits ≤ 8 -/
-theorem toGridC11_evaluates (L : ℕ) (hL : L ≤ 8) (c : Fin ((L + 1) ^ 2) → ℝ) (rb ra : ℕ) :
+/-- the hypothesis `hT` of `signal_on_grid_values` holds for the C11 model of `ToS2Grid`, given the angular certificates of the degrees
+`≤ L` -/
+theorem toGridC11_evaluates_of_check (L : ℕ) (hc : ∀ l, l ≤ L → Ang.angCheck (select (evalProg prog) index) legTable l = true)
+    (c : Fin ((L + 1) ^ 2) → ℝ) (rb ra : ℕ) :
     toGridC11 L rb ra (List.ofFn c) =
       (s2GridPoints rb ra).map fun row => row.map fun x => ∑ i, c i * YInt ((L + 1) ^ 2) x i := by
-  obtain ⟨g, hg, hval⟩ := C11.toS2Grid_evaluates_signal L rb ra (nTo .integral L)
-    (fun i => (List.ofFn c).getD i 0) hL
+  obtain ⟨g, hg, hval⟩ := C11.toS2Grid_evaluates_signal_of_check L rb ra (nTo .integral L)
+    (fun i => (List.ofFn c).getD i 0) hc
   unfold toGridC11 s2GridPoints s2Betas s2Alphas
   rw [hg]
   simp only [List.map_map]
@@ -63,6 +65,12 @@ theorem toGridC11_evaluates (L : ℕ) (hL : L ≤ 8) (c : Fin ((L + 1) ^ 2) → 
   have hs : Nat.sqrt (l ^ 2 + k) = l := sqrt_flat l k hk'
   simp only [YInt, hn, hF, one_mul, hs, Nat.add_sub_cancel_left]
   rw [gridVec_eq_vec3]
+
+/-- band limits ≤ 8 (default build) -/
+theorem toGridC11_evaluates (L : ℕ) (hL : L ≤ 8) (c : Fin ((L + 1) ^ 2) → ℝ) (rb ra : ℕ) :
+    toGridC11 L rb ra (List.ofFn c) =
+      (s2GridPoints rb ra).map fun row => row.map fun x => ∑ i, c i * YInt ((L + 1) ^ 2) x i :=
+  toGridC11_evaluates_of_check L (fun l h => C11.ang_le8 l (by omega)) c rb ra
 
 /-- **`signal_on_grid` returns the values of `signal_xyz` at the grid points it reports — no hypothesis on `ToS2Grid` left**
 (band limits ≤ 8; the spherical harmonics are the ones the source computes, 'integral' normalisation; `toGridC11` is the C11 model of
